@@ -203,6 +203,28 @@ func checkC19(p *Prog, r *Report) {
 		}
 	}
 
+	// ---- O3 (second half): the OOB buffer has one owner — the pool-ownership obligations of C15.O1 for SendOOB
+	{
+		key := "delegate:C15:" + r.curCfg
+		sub, _ := p.memo[key].(*Report)
+		if sub == nil {
+			sub = newReport("C15", r.Tier)
+			sub.curCfg = r.curCfg
+			checkC15(p, sub)
+			p.memo[key] = sub
+		}
+		for _, o := range sub.Obs {
+			if o.Rule != "C15.O1" || !strings.Contains(o.Func, "SendOOB") {
+				continue
+			}
+			if o.Status == Discharged {
+				r.ok("C19.O3", o.Func, o.Pos, o.Construct, o.Detail)
+			} else {
+				r.bad("C19.O3", o.Func, o.Pos, o.Construct, o.Detail+": the same pooled buffer is handed to two later users — other sessions' stream data and OOB payloads are overwritten", o.Witness)
+			}
+		}
+	}
+
 	// ---- O4
 	{
 		eo := p.FuncOf(p.Method("fecEncoder", "encodeOOB"))
@@ -364,15 +386,14 @@ func checkC19(p *Prog, r *Report) {
 			switch n := x.(type) {
 			case *ast.CallExpr:
 				if f := p.Callee(n); f != nil && f.Name() == "PutUint32" && len(n.Args) == 2 {
-					d := p.Term(n.Args[0])
 					v := p.Term(n.Args[1])
-					if d.Op == "slice" && d.Args[1] != nil && d.Args[1].Key() == hs.Key() && d.Args[2] == nil && v.Op == "fld" && v.Obj == p.Field("KCP", "conv") {
+					// destination: the buffer at offset headerSize, written directly or through a local view of it
+					if base, off, okO := p.sliceStart(send, p.Term(n.Args[0]), 0); okO && base != nil && off.Equal(Lin(hs)) && v.Op == "fld" && v.Obj == p.Field("KCP", "conv") {
 						okConv = true
 					}
 				}
 				if p.BuiltinName(n) == "copy" && len(n.Args) == 2 {
-					d := p.Term(n.Args[0])
-					if d.Op == "slice" && d.Args[1] != nil && Lin(d.Args[1]).Equal(Lin(add(hs, tConst(convSize)))) && d.Args[2] == nil && p.Term(n.Args[1]).Key() == data.Key() {
+					if base, off, okO := p.sliceStart(send, p.Term(n.Args[0]), 0); okO && base != nil && off.Equal(Lin(add(hs, tConst(convSize)))) && p.Term(n.Args[1]).Key() == data.Key() {
 						okPayload = true
 					}
 				}
